@@ -55,13 +55,15 @@ func newCtl() *ctl {
 }
 
 func (l *ctl) Accept() (c net.Conn, err error) {
-	l.entered <- struct{}{}
+	// the gate that applies to this call is read BEFORE the entry is signalled: once the harness has seen the signal, nothing it does
+	// afterwards (setting a gate for the NEXT entry) can change what this call does
 	l.mu.Lock()
 	g := l.gate
 	if l.deadlines > 0 && !l.armed {
 		l.stale++
 	}
 	l.mu.Unlock()
+	l.entered <- struct{}{}
 	defer func() {
 		l.mu.Lock()
 		l.armed = false
@@ -235,7 +237,8 @@ func runCase(n int, line string) (res string) {
 		return strings.ReplaceAll(overlapDrain(n), " ", "_")
 	}
 	svc, _ := varlink.NewService("v", "p", "1", "u")
-	ctx := context.Background()
+	ctx, cancelCtx := context.WithCancel(context.Background()) // the context handed to the serving calls
+	defer cancelCtx()
 	var l *ctl
 	var ctls []*ctl
 	var done chan error
@@ -394,7 +397,41 @@ func runCase(n int, line string) (res string) {
 			} else {
 				out = append(out, "ok")
 			}
-		case "badcall":
+		case "stall":
+			// a complete call and the head of the next frame in ONE write; the client reads the reply and then stalls in mid-frame
+			id, _ := strconv.Atoi(f[1])
+			c := clients[id]
+			if c == nil {
+				out = append(out, "none")
+				continue
+			}
+			c.SetDeadline(time.Now().Add(3 * time.Second))
+			_, err := c.Write([]byte("{\"method\":\"org.varlink.service.GetInfo\"}\x00{\"meth"))
+			if err == nil {
+				_, err = bufio.NewReader(c).ReadBytes(0)
+			}
+			c.SetDeadline(time.Time{})
+			if err != nil {
+				out = append(out, "err")
+			} else {
+				out = append(out, "ok")
+			}
+		case "ctxcancel":
+			// the context given to the serving call is cancelled: every connection's read ends, all handlers exit
+			cancelCtx()
+			for t := 0; t < 12000 && svc.VerifActive() > 0; t++ {
+				time.Sleep(250 * time.Microsecond)
+			}
+			if a := svc.VerifActive(); a > 0 {
+				out = append(out, fmt.Sprintf("stuck:%d", a))
+			} else {
+				out = append(out, "ended")
+			}
+			for id, c := range clients {
+				c.Close()
+				delete(clients, id)
+			}
+		case "badcall", "badcall-keep":
 			// a frame that does not decode: the handler fails, the service ends the connection itself
 			id, _ := strconv.Atoi(f[1])
 			c := clients[id]
@@ -410,8 +447,12 @@ func runCase(n int, line string) (res string) {
 				_, err = c.Read(b[:])
 			}
 			c.SetDeadline(time.Time{})
-			c.Close()
-			delete(clients, id)
+			if f[0] == "badcall" {
+				c.Close()
+				delete(clients, id)
+			}
+			// badcall-keep: the client has seen the service hang up but keeps its own end open (closed when the case ends):
+			// the connection's resources must be released all the same
 			if err == io.EOF {
 				for t := 0; t < 2000 && svc.VerifActive() >= before && before > 0; t++ {
 					time.Sleep(500 * time.Microsecond)
